@@ -102,6 +102,10 @@ Idle == [st |-> "idle", pid |-> -1, seq |-> -1, ch |-> -1, next |-> -1, dead |->
 \* ---- bags as functions frame -> count -----------------------------------
 BagAdd(b, f) == IF f \in DOMAIN b THEN [b EXCEPT ![f] = @ + 1] ELSE b @@ (f :> 1)
 BagDel(b, f) == IF b[f] = 1 THEN [x \in DOMAIN b \ {f} |-> b[x]] ELSE [b EXCEPT ![f] = @ - 1]
+\* Datagram lifetime: the property assumes that no datagram outlives M - 2 later exchanges ("lifetime below the sequence
+\* wrap"). When a counter advances to a number that has been used before (at least M exchanges so far), whatever still
+\* carries that number in the same direction and channel is older than that and is gone.
+Purge(b, svc, ch, seq) == [f \in {x \in DOMAIN b : ~(x.svc = svc /\ x.ch = ch /\ x.seq = seq)} |-> b[f]]
 BagSize(b) == LET S == DOMAIN b
                   RECURSIVE Sum(_)
                   Sum(X) == IF X = {} THEN 0 ELSE LET x == CHOOSE x \in X : TRUE IN b[x] + Sum(X \ {x})
@@ -247,15 +251,19 @@ SendTimeout(g) ==
 SendTakeAck(g) ==
   /\ snd[g].st = "waiting"
   /\ \E o \in offers :
-       /\ offers' = offers \ {o}
+       /\ offers' = IF o.seq = sndSeq /\ (~AckChanCheck \/ o.ch = chan) /\ nsend >= M
+                    THEN {x \in offers \ {o} : x.seq # (sndSeq + 1) % M}      \* (lifetime, see Purge)
+                    ELSE offers \ {o}
        /\ IF o.seq # sndSeq \/ (AckChanCheck /\ o.ch # chan)
-          THEN /\ UNCHANGED <<snd, mu, sndSeq>> /\ ev' = NoEv      \* ignore mismatching sequence numbers / stale channels
+          THEN /\ UNCHANGED <<snd, mu, sndSeq, c2g, g2c>> /\ ev' = NoEv      \* ignore mismatching sequence numbers / stale channels
           ELSE /\ sndSeq' = (sndSeq + 1) % M
                /\ Return(g, IF o.st = 0 THEN "ok" ELSE "rejected")
+               /\ c2g' = IF nsend >= M THEN Purge(c2g, "TunnelReq", chan, (sndSeq + 1) % M) ELSE c2g
+               /\ g2c' = IF nsend >= M THEN Purge(g2c, "TunnelRes", chan, (sndSeq + 1) % M) ELSE g2c
   \* several acknowledgements on offer: which one the select takes is the Go runtime's choice
   /\ act' = Act(IF Cardinality(offers) > 1 THEN "choice" ELSE "internal", g)
   /\ UNCHANGED <<now, muq, srv, chan, rcvSeq, conn, hbNext, hb, hbOffers, failSig, ackOpen, inbOpen, done, once, closer,
-                 starting, queued, reader, got, delivered, rxq, sockOpen, c2g, g2c, dups, losses, injs, gwf, gw, bus, nsend, ntele, nid, epoch>>
+                 starting, queued, reader, got, delivered, rxq, sockOpen, dups, losses, injs, gwf, gw, bus, nsend, ntele, nid, epoch>>
 
 SendAckClosed(g) ==
   /\ snd[g].st = "waiting" /\ ~ackOpen
@@ -283,7 +291,10 @@ Push(pid) ==
 ProcTake ==
   /\ srv.pc = "proc" /\ Len(rxq) > 0 /\ ~done
   /\ LET f == Head(rxq) IN
-     /\ rxq' = Tail(rxq)
+     /\ LET accept == f.svc = "TunnelReq" /\ f.ch = chan /\ ~UseTCP /\ f.seq = rcvSeq /\ ntele >= M
+            stale(x) == x.svc = "TunnelReq" /\ x.ch = chan /\ x.seq = (rcvSeq + 1) % M
+        IN /\ rxq' = IF accept THEN SelectSeq(Tail(rxq), LAMBDA x : ~stale(x)) ELSE Tail(rxq)
+           /\ g2c' = IF accept THEN Purge(g2c, "TunnelReq", chan, (rcvSeq + 1) % M) ELSE g2c
      /\ ev' = FrEv("In", f)
      /\ CASE f.svc = "TunnelReq" /\ f.ch = chan /\ UseTCP ->
                /\ srv' = [pc |-> "push", a |-> -1, b |-> f.pid] /\ UNCHANGED <<rcvSeq, offers, hbOffers>>
@@ -310,7 +321,7 @@ ProcTake ==
   /\ act' = Act("take", 0)
   /\ UNCHANGED <<now, chan, sndSeq, conn, mu, muq, snd, hbNext, hb, failSig, ackOpen, inbOpen, done, once, closer,
                  starting, queued, reader, got, delivered,
-                 sockOpen, c2g, g2c, dups, losses, injs, gwf, gw, bus, nsend, ntele, epoch>>
+                 sockOpen, c2g, dups, losses, injs, gwf, gw, bus, nsend, ntele, epoch>>
 
 \* pushInbound(req.Payload), then on to the acknowledgement (UDP) or back to the loop (TCP)
 ProcPush ==
@@ -472,7 +483,12 @@ G2C(f) == IF BagSize(g2c) < MaxNet THEN BagAdd(g2c, f) ELSE g2c
 \* the gateway processes one datagram from the client
 NetToGw ==
   /\ \E f \in DOMAIN c2g :
-     /\ c2g' = BagDel(c2g, f)
+     /\ c2g' = LET b == BagDel(c2g, f)
+                    acked == f.svc = "TunnelRes" /\ gw.conn /\ f.ch = gw.ch /\ gw.pend # -1 /\ f.seq = gw.seq /\ f.st = 0
+                    accepted == f.svc = "TunnelReq" /\ gw.conn /\ f.ch = gw.ch /\ f.seq = gw.expect /\ ~UseTCP
+                IN IF acked /\ ntele >= M THEN Purge(b, "TunnelRes", gw.ch, (gw.seq + 1) % M)
+                   ELSE IF accepted /\ Len(bus) + 1 >= M THEN Purge(b, "TunnelReq", gw.ch, (gw.expect + 1) % M)
+                   ELSE b
      /\ act' = ActF("c2g-deliver", f)
      /\ CASE f.svc = "ConnReq" /\ gw.conn /\ f.seq = gw.att ->
                \* repetition of the connect request that created this connection: same answer again
@@ -494,7 +510,8 @@ NetToGw ==
                /\ bus' = Append(bus, f.pid) /\ ev' = [SimEv("GwBus", -1, -1, "") EXCEPT !.a = f.pid] /\ UNCHANGED <<gw, g2c>>
           [] f.svc = "TunnelRes" /\ gw.conn /\ f.ch = gw.ch /\ gw.pend # -1 /\ f.seq = gw.seq /\ f.st = 0 ->
                /\ gw' = [gw EXCEPT !.seq = (@ + 1) % M, !.pend = -1]
-               /\ ev' = [SimEv("GwAcked", -1, -1, "") EXCEPT !.a = gw.pend] /\ UNCHANGED <<g2c, bus>>
+               /\ g2c' = IF ntele >= M THEN Purge(g2c, "TunnelReq", gw.ch, (gw.seq + 1) % M) ELSE g2c
+               /\ ev' = [SimEv("GwAcked", -1, -1, "") EXCEPT !.a = gw.pend] /\ UNCHANGED bus
           [] f.svc = "ConnStateReq" ->
                /\ g2c' = G2C(Frame("ConnStateRes", f.ch, -1, IF gw.conn /\ f.ch = gw.ch THEN 0 ELSE 33, -1))
                /\ ev' = NoEv /\ UNCHANGED <<gw, bus>>
